@@ -127,6 +127,7 @@ type Sim struct {
 	OnStep    func(s *Sim) // invariant hook, called at quiescence before each choice
 	Outcome   string       // done | deadlock | budget | fakebudget
 	FiredEvts []string
+	ctxs      []*Ctx
 	// UnlockYields: releasing a lock is a scheduling point too (what a caller does between an unlock and its
 	// next synchronisation - publishing a snapshot, say - can then be overtaken by another task)
 	UnlockYields bool
@@ -793,14 +794,47 @@ type Ctx struct {
 	cancelled atomic.Bool
 	CancelAt  int // scheduler step at which cancel was delivered; -1 = never
 	values    map[any]any
+	// FarDeadline: the context reports a deadline (one hour of simulated time ahead, never reached): what a
+	// context.WithTimeout context that is cancelled early looks like to the code under test
+	FarDeadline time.Time
 }
 
 // NewCtx creates a context owned by the simulation (inside the bubble).
 func (s *Sim) NewCtx() *Ctx {
-	return &Ctx{s: s, done: make(chan struct{}), CancelAt: -1}
+	c := &Ctx{s: s, done: make(chan struct{}), CancelAt: -1}
+	s.mu.Lock()
+	s.ctxs = append(s.ctxs, c)
+	s.mu.Unlock()
+	return c
 }
 
-func (c *Ctx) Deadline() (time.Time, bool) { return time.Time{}, false }
+// PollChan is inserted by the rewriter (R7) in front of a select statement that receives from a channel held in a
+// variable or field rather than obtained by a call: code that fetched ctx.Done() once and polls the stored channel
+// must offer the same scheduling points, and be seen observing the cancellation, as code that calls Done() at
+// every poll. Nothing is received from the channel.
+func PollChan(ch interface{}) {
+	s, t := current()
+	if t == nil || t.solo {
+		return
+	}
+	s.yield(t, "poll", nil)
+	rv := reflect.ValueOf(ch)
+	if !rv.IsValid() || rv.Kind() != reflect.Chan || rv.IsNil() {
+		return
+	}
+	s.mu.Lock()
+	for _, c := range s.ctxs {
+		if reflect.ValueOf(c.done).Pointer() == rv.Pointer() {
+			t.Polls++
+			if c.cancelled.Load() && t.ObservedCancelStep < 0 {
+				t.ObservedCancelStep = s.Step
+			}
+		}
+	}
+	s.mu.Unlock()
+}
+
+func (c *Ctx) Deadline() (time.Time, bool) { return c.FarDeadline, !c.FarDeadline.IsZero() }
 
 func (c *Ctx) Done() <-chan struct{} {
 	s, t := current()
@@ -817,6 +851,16 @@ func (c *Ctx) Done() <-chan struct{} {
 }
 
 func (c *Ctx) Err() error {
+	// polling through Err() is polling too
+	if s, t := current(); t != nil && !t.solo {
+		s.yield(t, "poll", nil)
+		s.mu.Lock()
+		t.Polls++
+		if c.cancelled.Load() && t.ObservedCancelStep < 0 {
+			t.ObservedCancelStep = s.Step
+		}
+		s.mu.Unlock()
+	}
 	if c.cancelled.Load() {
 		return errCanceled
 	}
